@@ -249,6 +249,11 @@ def proj_physical(l, op=""):
     return (l.ret, tuple(l.events), l.start, l.size, tuple(l.window), l.allocs, l.views, l.crash)
 
 
+def proj_alloc(l, op=""):
+    """only what C17 speaks about: the number of heap allocations (and whether the call crashed)"""
+    return (l.allocs, l.crash)
+
+
 def proj_ordered(l, op=""):
     """behaviour with the event order kept"""
     b = proj_behaviour(l, op)
